@@ -258,3 +258,170 @@ Proof.
     split; [exact Hp|]. split; [reflexivity|]. exact (execute_sound a n orc _ Hp eq_refl).
   - right. split; [exact Ho|]. unfold execute. rewrite E. reflexivity.
 Qed.
+
+(* ------------------------------------------------------------------------------------------ *)
+(* L4 for dict.RunsAlgorithm *)
+
+From AV Require Import proofs.RunsProofs.
+
+(* every element RunsChain appends in one step is at most the run of length la + lb *)
+Lemma shift_loop_In rb : forall cnt t z, In z (Runs.shift_loop cnt rb t) ->
+  exists u, (t + 1 <= u <= t + N.of_nat cnt)%N /\ z = rb * 2 ^ Z.of_N u.
+Proof.
+  induction cnt as [|cnt IH]; intros t z Hz; [destruct Hz|]. cbn [Runs.shift_loop] in Hz. destruct Hz as [<-|Hz].
+  - exists (t + 1)%N. split; [lia|]. apply Z.shiftl_mul_pow2. lia.
+  - destruct (IH _ _ Hz) as (u & Hu & ->). exists u. split; [lia|reflexivity].
+Qed.
+
+Lemma runs_step_bound lc c s o c' s' x y :
+  nth_error lc (fst o) = Some x -> nth_error lc (snd o) = Some y -> 0 <= x -> 0 <= y -> x + y < 2 ^ 64 ->
+  runs_step lc (c, s) o = Ok (c', s') ->
+  forall z, In z c' -> In z c \/ z <= 2 ^ (x + y) - 1.
+Proof.
+  intros Ex Ey Hx Hy Hsmall. unfold runs_step. rewrite Ex, Ey.
+  destruct (min_max x y) as [a b] eqn:Emm. rewrite min_max_spec in Emm. injection Emm as <- <-.
+  destruct (negb (is_uint64 (Z.min x y)) || negb (is_uint64 (Z.max x y))); [discriminate|].
+  intros H. injection H as <- _. intros z Hz.
+  set (la := Z.to_N (Z.min x y)) in *. set (lb := Z.to_N (Z.max x y)) in *.
+  assert (Hsum : Z.of_N la + Z.of_N lb = x + y) by (unfold la, lb; rewrite !Z2N.id by lia; lia).
+  assert (Hpw : 2 ^ (x + y) = 2 ^ Z.of_N la * 2 ^ Z.of_N lb) by (rewrite <- Z.pow_add_r by lia; f_equal; lia).
+  apply in_app_iff in Hz. destruct Hz as [Hz|Hz]; [now left|]. right.
+  apply in_app_iff in Hz. destruct Hz as [Hz|[<-|[]]].
+  - apply shift_loop_In in Hz. destruct Hz as (u & Hu & ->). rewrite ones_eq.
+    assert (Hule : (u <= la)%N) by lia.
+    assert (Hmono : 2 ^ Z.of_N u <= 2 ^ Z.of_N la) by (apply Z.pow_le_mono_r; lia).
+    assert (0 < 2 ^ Z.of_N u) by (apply Z.pow_pos_nonneg; lia).
+    assert (0 < 2 ^ Z.of_N lb) by (apply Z.pow_pos_nonneg; lia). nia.
+  - unfold wrap64. rewrite N.mod_small.
+    + rewrite ones_eq, N2Z.inj_add, Hsum. lia.
+    + apply N2Z.inj_lt. rewrite N2Z.inj_add, Hsum, N2Z.inj_pow. exact Hsmall.
+Qed.
+
+Lemma runs_loop_bound lc (B : Z -> Prop) : forall p c s c',
+  (forall o, In o p -> exists x y, nth_error lc (fst o) = Some x /\ nth_error lc (snd o) = Some y /\
+                                   0 <= x /\ 0 <= y /\ x + y < 2 ^ 64 /\ forall z, z <= 2 ^ (x + y) - 1 -> B z) ->
+  (forall z, In z c -> B z) ->
+  runs_loop lc p (c, s) = Ok c' -> forall z, In z c' -> B z.
+Proof.
+  induction p as [|o p IH]; intros c s c' Hp Hc H; cbn [runs_loop] in H.
+  - injection H as <-. exact Hc.
+  - destruct (runs_step lc (c, s) o) as [[c1 s1]| | |] eqn:E1; try discriminate. cbn [obind] in H.
+    destruct (Hp o (or_introl eq_refl)) as (x & y & Ex & Ey & Hx & Hy & Hs & HB).
+    apply (IH c1 s1 c'); [intros o' Ho'; apply Hp; now right| |exact H].
+    intros z Hz. destruct (runs_step_bound lc c s o c1 s1 x y Ex Ey Hx Hy Hs E1 z Hz) as [Hin|Hle]; auto.
+Qed.
+
+Theorem runs_chain_bound lc c : is_chain lc -> (forall l, In l lc -> l < 2 ^ 64) -> runs_chain lc = Ok c ->
+  forall z, In z c -> exists l, In l lc /\ z <= 2 ^ l - 1.
+Proof.
+  intros Hc Hsmall H. unfold runs_chain in H. destruct (program lc) as [p| | |] eqn:Ep; try discriminate.
+  cbn [obind] in H. destruct (program_ops lc p Ep) as [Hlen Hops].
+  pose proof (fun x => chain_pos lc x Hc) as Hpos.
+  apply (runs_loop_bound lc (fun z => exists l, In l lc /\ z <= 2 ^ l - 1) p [1] [] c); [| |exact H].
+  - intros [i j] Ho. apply In_nth_error in Ho. destruct Ho as [k Hk]. destruct (Hops k i j Hk) as [Hij Hs].
+    assert (Hklt : (k < length p)%nat).
+    { destruct (Nat.lt_ge_cases k (length p)) as [|Hge]; [assumption|].
+      apply nth_error_None in Hge. unfold op in *. rewrite Hge in Hk. discriminate. }
+    exists (nz lc i), (nz lc j). cbn [fst snd]. unfold nz.
+    split; [apply nth_error_nth'; lia|]. split; [apply nth_error_nth'; lia|].
+    assert (Hi : In (nz lc i) lc) by (apply nz_In; lia). assert (Hj : In (nz lc j) lc) by (apply nz_In; lia).
+    assert (Hk' : In (nz lc (S k)) lc) by (apply nz_In; lia).
+    pose proof (Hpos _ Hi). pose proof (Hpos _ Hj). fold (nz lc i) (nz lc j).
+    split; [lia|]. split; [lia|]. split; [rewrite Hs; now apply Hsmall|].
+    intros z Hz. exists (nz lc (S k)). split; [exact Hk'|]. rewrite <- Hs. exact Hz.
+  - intros z [<-|[]]. exists 1. split; [|cbn; lia]. destruct Hc as [[r ->] _]. now left.
+Qed.
+
+(* bit lengths *)
+Lemma bitlen_ones_pow l : (1 <= l)%N -> bitlen (2 ^ Z.of_N l - 1) = l.
+Proof.
+  intros Hl. assert (Hp : 2 <= 2 ^ Z.of_N l).
+  { change 2 with (2 ^ 1) at 1. apply Z.pow_le_mono_r; lia. }
+  pose proof (bitlen_bounds (2 ^ Z.of_N l - 1) ltac:(lia)) as [H1 H2].
+  set (b := bitlen (2 ^ Z.of_N l - 1)) in *.
+  assert (Z.of_N l <= Z.of_N b).
+  { destruct (Z.le_gt_cases (Z.of_N l) (Z.of_N b)) as [|Hgt]; [assumption|].
+    assert (2 ^ (Z.of_N b + 1) <= 2 ^ Z.of_N l) by (apply Z.pow_le_mono_r; lia).
+    rewrite Z.pow_add_r in H by lia. assert (0 < 2 ^ Z.of_N b) by (apply Z.pow_pos_nonneg; lia). lia. }
+  assert (Z.of_N b - 1 < Z.of_N l).
+  { destruct (Z.lt_ge_cases (Z.of_N b - 1) (Z.of_N l)) as [|Hge]; [assumption|].
+    assert (2 ^ Z.of_N l <= 2 ^ (Z.of_N b - 1)) by (apply Z.pow_le_mono_r; lia). lia. }
+  lia.
+Qed.
+
+Lemma bitlen_mono x y : 0 < x -> x <= y -> (bitlen x <= bitlen y)%N.
+Proof.
+  intros Hx Hxy. pose proof (bitlen_bounds x Hx) as [H1 _]. pose proof (bitlen_bounds y ltac:(lia)) as [_ H2].
+  destruct (N.le_gt_cases (bitlen x) (bitlen y)) as [|Hgt]; [assumption|].
+  assert (2 ^ Z.of_N (bitlen y) <= 2 ^ (Z.of_N (bitlen x) - 1)) by (apply Z.pow_le_mono_r; lia). lia.
+Qed.
+
+(* RunLength.Decompose ends with SortByExponent *)
+Lemma runlength_sorted T x s : decompose (RunLength T) x = Ok s -> nondecreasing_e (conv_sum s) = true.
+Proof.
+  cbn [decompose]. unfold runlength_decompose.
+  destruct (runlength_loop (fuel_of x) x T (bitlen_int x - 1)) as [s0| | |]; try discriminate. cbn [obind].
+  intros H. injection H as <-. apply sort_by_exponent_nondec.
+Qed.
+
+(* the extra fact about RunLength{T: 0} that the runs algorithm relies on (interface to C09):
+   every dictionary entry is a run of ones *)
+Definition runlength_ones : Prop :=
+  forall x s, decompose (RunLength 0) x = Ok s ->
+  forall t, In t s -> exists l, (1 <= l)%N /\ Z.of_N (D t) = 2 ^ Z.of_N l - 1.
+
+Theorem runs_alg_ok s : decomp_ok (RunLength 0) -> runlength_ones -> seqalg_ok s ->
+  forall n orc, 1 <= n -> Z.of_N (bitlen n) < 2 ^ 64 ->
+  (exists c, runs_find_chain s n orc = Ok c /\ is_chain c /\ asc c /\ last c 0 = n) \/
+  (orc <> None /\ runs_find_chain s n orc = Err ($"sortoracle")).
+Proof.
+  intros Hm Hones Hs n orc Hn Hbits. unfold runs_find_chain.
+  destruct (Hm (Z.to_N n) ltac:(lia)) as (sum & Ed & Hsum & HD). rewrite Ed. cbn [obind].
+  assert (Hval : tsum (conv_sum sum) = n) by (rewrite sum_int_conv, Hsum; lia).
+  assert (Hne : sum <> []) by (intros E; rewrite E in Hval; cbn [conv_sum map tsum] in Hval; lia).
+  assert (Hpos : forall u, In u (conv_sum sum) -> 0 < fst u).
+  { intros u Hu. apply in_map_iff in Hu. destruct Hu as (t & <- & Ht). cbn [conv_term fst]. specialize (HD t Ht). lia. }
+  assert (HDle : forall t, In t sum -> Z.of_N (D t) <= n).
+  { intros t Ht. rewrite <- Hval. apply (term_le_tsum (conv_sum sum) (conv_term t) Hpos). now apply in_map. }
+  set (lengths := map (fun r => Z.of_N (bitlen (Z.of_N r))) (dictionary sum)).
+  assert (Hlen_In : forall z, In z lengths <-> exists t, In t sum /\ z = Z.of_N (bitlen (Z.of_N (D t)))).
+  { intros z. unfold lengths. rewrite in_map_iff. split.
+    - intros (r & <- & Hr). assert (Hr' : In (Z.of_N r) (map Z.of_N (dictionary sum))) by now apply in_map.
+      apply dictionary_In in Hr'. destruct Hr' as (t & Ht & Et). exists t. split; [exact Ht|]. now rewrite Et.
+    - intros (t & Ht & ->). assert (Hr' : In (Z.of_N (D t)) (map Z.of_N (dictionary sum))) by (apply dictionary_In; now exists t).
+      apply in_map_iff in Hr'. destruct Hr' as (r & Er & Hr). exists r. split; [now rewrite Er|exact Hr]. }
+  assert (Hlen_run : forall t, In t sum -> (1 <= bitlen (Z.of_N (D t)))%N /\
+                     Z.of_N (D t) = 2 ^ Z.of_N (bitlen (Z.of_N (D t))) - 1).
+  { intros t Ht. destruct (Hones _ _ Ed t Ht) as (l & Hl & E).
+    assert (Eb : bitlen (Z.of_N (D t)) = l) by (rewrite E; now apply bitlen_ones_pow).
+    rewrite Eb. split; [exact Hl|exact E]. }
+  destruct (Hs lengths) as (lc & Elc & Hlc & Hlin & Hlb).
+  - destruct sum as [|t r] eqn:Es; [congruence|]. intros E.
+    assert (H : In (Z.of_N (bitlen (Z.of_N (D t)))) lengths) by (apply Hlen_In; exists t; split; [now left|reflexivity]).
+    rewrite E in H. destruct H.
+  - intros z Hz. apply Hlen_In in Hz. destruct Hz as (t & Ht & ->). destruct (Hlen_run t Ht) as [H1 _]. lia.
+  - rewrite Elc. cbn [obind].
+    assert (Hsmall : forall l, In l lc -> l < 2 ^ 64).
+    { intros l Hl. destruct (Hlb l Hl) as (z & Hz & Hlz). apply Hlen_In in Hz. destruct Hz as (t & Ht & ->).
+      specialize (HD t Ht). pose proof (bitlen_mono (Z.of_N (D t)) n ltac:(lia) (HDle t Ht)). lia. }
+    destruct (runs_chain_valid lc Hlc Hsmall) as (c & Ec & Hc & Hruns). rewrite Ec. cbn [obind].
+    apply reduce_and_build_ok.
+    + exact Hc.
+    + intros E. apply Hne. destruct sum; [reflexivity|discriminate].
+    + exact (runlength_sorted _ _ _ Ed).
+    + intros u Hu. apply in_map_iff in Hu. destruct Hu as (t & <- & Ht). cbn [conv_term fst].
+      destruct (Hlen_run t Ht) as [_ E]. rewrite E. apply Hruns. apply Hlin. apply Hlen_In. now exists t.
+    + rewrite sum_int_tsum. exact Hval.
+    + intros z Hz. destruct (runs_chain_bound lc c Hlc Hsmall Ec z Hz) as (l & Hl & Hzl).
+      destruct (Hlb l Hl) as (z' & Hz' & Hlz'). apply Hlen_In in Hz'. destruct Hz' as (t & Ht & ->).
+      destruct (Hlen_run t Ht) as [_ E]. specialize (HDle t Ht).
+      assert (1 <= l) by (apply (chain_pos lc); assumption).
+      assert (2 ^ l <= 2 ^ Z.of_N (bitlen (Z.of_N (D t)))) by (apply Z.pow_le_mono_r; lia). lia.
+Qed.
+
+Theorem runs_ok s n orc : decomp_ok (RunLength 0) -> runlength_ones -> seqalg_ok s ->
+  1 <= n -> Z.of_N (bitlen n) < 2 ^ 64 -> find_chain_ok (ARuns s) n orc.
+Proof.
+  intros Hm Ho Hs Hn Hb. destruct (runs_alg_ok s Hm Ho Hs n orc Hn Hb) as [(c & E & Hc & _ & Hl)|H]; [left|right; exact H].
+  exists c. cbn [find_chain]. auto.
+Qed.
